@@ -74,7 +74,8 @@ class RuleResult:
         """The code no longer has a shape this obligation can be read off, and nothing property-breaking was positively
         identified: the obligation is reported as not decided (no alarm, no pass)."""
         self.instances += 1
-        self.undecideds.append((what, why))
+        if (what, why) not in self.undecideds:
+            self.undecideds.append((what, why))
 
     def shape(self, ok, sample, f, node, construct, message, bad=None, rule=None, **kw):
         """pin helper: ok -> discharged; `bad` (a positively identified property-breaking construct) -> finding; else undecided"""
